@@ -303,6 +303,9 @@ func runC04(c *core.Ctx) {
 
 	// ---- R-exit
 	checkExitOnErrExit(c, "verdict.exit", "runLint")
+	// a syntax error the parser does not see cannot make the exit status non-zero
+	checkLoopGuardToken(c)
+	checkRuleOverridesKept(c)
 }
 
 func underSeverityCase(param *ssa.Parameter, want constant.Value, b *ssa.BasicBlock) bool {
@@ -906,4 +909,51 @@ func checkRecorded(c *core.Ctx, mainFuncs []*ssa.Function) {
 		}
 	}
 	c.Floor("verdict.recorded", 4)
+}
+
+// checkRuleOverridesKept (verdict.overrides): the severity overrides of the configuration file (LinterConfig.Rules)
+// decide the effective severity, hence the exit status. After the configuration has been loaded the map may be
+// *added to* (the -generated default), never replaced: a store of a fresh map into the field is allowed only behind a
+// test that the field is still nil.
+func checkRuleOverridesKept(c *core.Ctx) {
+	n := 0
+	for _, fn := range c.Prog.ModuleFuncs("config", "cmd/falco") {
+		for _, b := range fn.Blocks {
+			for _, in := range b.Instrs {
+				st, ok := in.(*ssa.Store)
+				if !ok {
+					continue
+				}
+				f := core.FieldOf(st.Addr)
+				if f == nil || f.Name() != "Rules" || !strings.HasSuffix(core.FieldOwner(st.Addr), "/config.LinterConfig") {
+					continue
+				}
+				n++
+				key := core.FnName(fn) + "|LinterConfig.Rules"
+				guarded := false
+				for _, blk := range fn.Blocks {
+					bo, eq, isEq := core.EqBranch(blk)
+					if !isEq || !(core.IsNilConst(bo.X) || core.IsNilConst(bo.Y)) {
+						continue
+					}
+					tested := bo.X
+					if core.IsNilConst(bo.X) {
+						tested = bo.Y
+					}
+					if ld, isLd := tested.(*ssa.UnOp); isLd {
+						if g := core.FieldOf(ld.X); g != nil && g.Name() == "Rules" && core.EdgeDominates(blk, eq, b) {
+							guarded = true
+						}
+					}
+				}
+				if guarded {
+					c.Discharge("verdict.overrides", key, st.Pos(), "a map is created only when the configuration gave none")
+				} else {
+					c.Report("verdict.overrides", key, st.Pos(), fmt.Sprintf("%s replaces LinterConfig.Rules without testing that it is nil: the severity overrides of the configuration file are dropped, so an ERROR lowered to a warning still fails the run and a warning raised to ERROR does not", core.FnName(fn)))
+				}
+			}
+		}
+	}
+	c.Instances("verdict.overrides", 0)
+	_ = n
 }
